@@ -901,6 +901,15 @@ class Magnitude(Number):
         )
 
 
+def _isoformat(value, time_format=""):
+    """
+    ISO 8601 text of a date or datetime.  The year is zero-padded here:
+    strftime('%Y') does not pad years below 1000 on every platform, and
+    strptime('%Y') needs four digits.
+    """
+    return "%04d" % value.year + value.strftime("-%m-%d" + time_format)
+
+
 class Date(Number):
     """Date parameter of datetime or date type."""
 
@@ -951,7 +960,7 @@ class Date(Number):
             return None
         if not isinstance(value, (dt.datetime, dt.date)): # i.e np.datetime64
             value = value.astype(dt.datetime)
-        return value.strftime("%Y-%m-%dT%H:%M:%S.%f")
+        return _isoformat(value, "T%H:%M:%S.%f")
 
     @classmethod
     def deserialize(cls, value):
@@ -1002,7 +1011,7 @@ class CalendarDate(Number):
     def serialize(cls, value):
         if value is None:
             return None
-        return value.strftime("%Y-%m-%d")
+        return _isoformat(value)
 
     @classmethod
     def deserialize(cls, value):
@@ -1418,9 +1427,9 @@ class DateRange(Range):
                 v = v.astype(dt.datetime)
             # Separate date and datetime to deserialize to the right type.
             if type(v) is dt.date:
-                v = v.strftime("%Y-%m-%d")
+                v = _isoformat(v)
             else:
-                v = v.strftime("%Y-%m-%dT%H:%M:%S.%f")
+                v = _isoformat(v, "T%H:%M:%S.%f")
             serialized.append(v)
         return serialized
 
@@ -1473,7 +1482,7 @@ class CalendarDateRange(Range):
         if value is None:
             return None
         # As JSON has no tuple representation
-        return [v.strftime("%Y-%m-%d") for v in value]
+        return [_isoformat(v) for v in value]
 
     @classmethod
     def deserialize(cls, value):
